@@ -841,7 +841,11 @@ def gen_bound_project(rng):
             t["binds"].append({"name": bname(0.7), "target": spell(rng, rng.choice(PR_REF))})
         if rng.random() < (0.5 if k == 0 else 0.2):
             t["deferred"].append({"name": bname(0.8), "proto": spell(rng, rng.choice(PR_REF))})
-        if len(t["binds"]) >= 2 and rng.random() < 0.3:
+        # PRIVATE bindings: only new binding names (a PRIVATE binding must not override a PUBLIC one)
+        for b in t["binds"]:
+            if b["name"].lower() not in inherited and homes[k]["kind"] == "module" and rng.random() < 0.4:
+                b["private"] = True
+        if len(t["binds"]) >= 2 and rng.random() < 0.3 and not any(b.get("private") for b in t["binds"]):
             t["merge"] = True
         own = [b["name"] for b in t["binds"]] + [b["name"] for b in t["deferred"]]
         pool = own + [n for n in inherited if n.lower() not in {o.lower() for o in own}]
@@ -1165,7 +1169,7 @@ def render_type(t, q, out):
             out.append(f"{q}  procedure, nopass :: " + ", ".join(_bind_item(b) for b in t["binds"]))
         else:
             for b in t["binds"]:
-                out.append(f"{q}  procedure, nopass :: {_bind_item(b)}")
+                out.append(f"{q}  procedure, nopass{', private' if b.get('private') else ''} :: {_bind_item(b)}")
         for b in t["deferred"]:
             out.append(f"{q}  procedure({b['proto']}), deferred, nopass :: {b['name']}")
         for g in t.get("gbinds", []):
@@ -1366,7 +1370,7 @@ class Flat:
         """encoding of the type-bound parts for the model, in the order in which the types are
         correlated (`order` = type entities as observed; default: source order):
         T <type ent> <slot id of the parent reference | -> <n> (<binding name> <binding ent>)*
-          <m> (<slot id> <specific name>)*"""
+          <m> (<slot id> <specific name>)* <k> (<ent of a PRIVATE own binding>)*"""
         recs = list(self.types)
         if order is not None:
             pos = {e: k for k, e in enumerate(order)}
@@ -1379,6 +1383,8 @@ class Flat:
             out.append(str(len(r["gslots"])))
             for i in r["gslots"]:
                 out += [str(i), self.slots[i]["name"]]
+            out.append(str(len(r["priv"])))
+            out += [str(e) for e in sorted(r["priv"])]
         return out
 
     def var_slot(self, sidx, v, phase, what, get, optional=False):
@@ -1483,7 +1489,7 @@ class Flat:
         # slots -------------------------------------------------------------
         for ti, t in enumerate(s["types"]):
             tn = t["name"].lower()
-            trec = {"ent": rec["local"]["t"][tn], "scope": sidx, "ti": ti, "ext": None, "own": {}, "gslots": []}
+            trec = {"ent": rec["local"]["t"][tn], "scope": sidx, "ti": ti, "ext": None, "own": {}, "gslots": [], "priv": set()}
             self.types.append(trec)
             if t["extends"]:
                 trec["ext"] = self.new_slot(sidx, "ty", "e", t["extends"], f"type {tn} extends", ("extends", ti))
@@ -1491,6 +1497,8 @@ class Flat:
                 self.var_slot(sidx, c, "e", f"type {tn} component {c['name']}", ("comp", ti, ci))
             for bi, b in enumerate(t["binds"]):
                 trec["own"][b["name"].lower()] = self.new_ent("binding", b["name"], spath + [tn])
+                if b.get("private"):
+                    trec["priv"].add(trec["own"][b["name"].lower()])
                 # `procedure :: name` is bound to the procedure of that name
                 self.new_slot(sidx, "pr", "e", b["target"] if b["target"] is not None else b["name"],
                               f"type {tn} binding {b['name']}", ("bind", ti, b["name"]))
@@ -1665,7 +1673,7 @@ def oracle(F: Flat):
             n = F.slots[i]["name"].lower()
             # no binding of that name along the whole chain: the name designates nothing among the
             # bindings of the type and stays text - procedures of the scope are another class of names
-            cur, seen, res = r, set(), None
+            cur, seen, res, path = r, set(), None, []
             while True:
                 if cur is None or cur["ent"] in seen:
                     res = SKIP  # the parent is not a type of the project / circular: unknown
@@ -1673,7 +1681,15 @@ def oracle(F: Flat):
                 seen.add(cur["ent"])
                 if n in cur["own"]:
                     res = cur["own"][n]
+                    if res in cur["priv"] and cur is not r:
+                        # an inherited PRIVATE binding is accessible only in the module that defines the
+                        # type it is declared in (F2018 7.5.5); named from elsewhere: not Fortran
+                        if F.scopes[cur["scope"]]["unit"] != F.scopes[r["scope"]]["unit"] or \
+                                F.scopes[F.scopes[cur["scope"]]["unit"]]["node"]["kind"] not in ("module", "submodule") or \
+                                any(F.scopes[x["scope"]]["unit"] != F.scopes[r["scope"]]["unit"] for x in path):
+                            res = SKIP
                     break
+                path.append(cur)
                 if cur["ext"] is None:
                     break
                 pe = exp.get(cur["ext"])
@@ -1694,10 +1710,25 @@ def oracle(F: Flat):
 
 
 def classify(F: Flat, frames, where, i, observed, block_use=True, shared=True, sub_local=True, sub_parent=True,
-             alias=True, host_over_local=True):
+             alias=True, host_over_local=True, drop_private=True):
     """the flags say which defect switches the model variant of the tree has on: a class whose switch
     is off is not considered"""
     cls = _classify(F, frames, where, i, observed, block_use, shared, sub_local, alias, host_over_local)
+    if cls is None and drop_private and F.slots[i]["kind"] == "gb" and observed is None:
+        # (8) the specific names a PRIVATE binding the type inherits: the nearest ancestor (through the parent
+        #     types Fortran designates) that declares a binding of that name declares it PRIVATE, and FORD's
+        #     slot still holds the name
+        n = F.slots[i]["name"].lower()
+        by_ent = {r["ent"]: r for r in F.types}
+        cur, seen = by_ent.get(F.type_parent.get(F.types[F.slots[i]["type"]]["ent"])), set()
+        if n not in F.types[F.slots[i]["type"]]["own"]:
+            while cur is not None and cur["ent"] not in seen:
+                seen.add(cur["ent"])
+                if n in cur["own"]:
+                    if cur["own"][n] in cur["priv"]:
+                        return "C07-private-binding-not-inherited"
+                    break
+                cur = by_ent.get(F.type_parent.get(cur["ent"]))
     if cls is None and sub_parent:
         # (7) the parent submodule is looked up by its name alone: a submodule on the host chain of
         #     the reference names a parent whose name submodules of two different ancestor modules bear
